@@ -15,10 +15,20 @@
               self._objects.append(obj)           -- shared list        append t
               return obj                          --                    getRet t o
 
-      def teardown_factory(self):
-          for obj in self._objects:               -- iterator creation  tdBegin t;  exhausted: tdEnd t
-              self.teardown_object(obj)           -- user code          tdObj t o ok   (ok = false: it raises,
-                                                  --                    the loop stops, the exception propagates)
+      def teardown_factory(self):                 -- (as repaired by /repo commit 8e1157b)
+          first_exception = None                  -- iterator creation  tdBegin t
+          for obj in self._objects:
+              try:
+                  self.teardown_object(obj)       -- user code          tdObj t o ok   (ok = false: it raises; the
+              except Exception as excp:           --                    loop goes on; only the FIRST exception is
+                  if first_exception is None:     --                    remembered: `pend` in the program counter)
+                      first_exception = excp
+          if first_exception is not None:         -- iterator exhausted tdEnd t (some o): re-raises the exception of
+              raise first_exception               --                    object o   |   tdEnd t none: returns
+
+  Before 8e1157b the loop was the bare `for obj in self._objects: self.teardown_object(obj)`: the first raising
+  `teardown_object` ended it and the remaining objects were never torn down (D31).  `stepLegacy`/`runLegacy`
+  keep that behaviour for documentation only; `step`/`run` are the code as it is now.
 
   `get_object` is NOT atomic: every source line is its own step and every thread has a program counter,
   so the steps of one thread follow program order while the steps of different threads interleave
@@ -31,9 +41,10 @@
   returns an object it has already returned shares it by its own choice and is outside the model.
   `list.append` and one bytecode-level read/write of the thread-local are atomic (GIL).
 
-  Ghost history (`creator`, `creations`, `returned`, `tdCount`, `tdBegins/tdEnds/tdRaises`) records who
-  created which object, which object every `get_object` call handed to which thread, and how often
-  `teardown_object` was called per object, so that the statements of C15 are state invariants.
+  Ghost history (`creator`, `creations`, `returned`, `tdCount`, `tdBegins/tdEnds/tdRaises/tdObjRaises`,
+  `tdOutcomes`) records who created which object, which object every `get_object` call handed to which
+  thread, how often `teardown_object` was called per object and how every `teardown_factory` call ended, so
+  that the statements of C15 are state invariants.
   Core Lean only.
 -/
 namespace LccModel.Threads
@@ -52,8 +63,9 @@ inductive Pc
   | stored (o : Nat)
   /-- appended; next: `return obj` -/
   | appended (o : Nat)
-  /-- inside the `for` loop of `teardown_factory`; the list iterator stands at index `i` -/
-  | tearing (i : Nat)
+  /-- inside the `for` loop of `teardown_factory`; the list iterator stands at index `i`;
+      `pend` = `first_exception`: the object whose `teardown_object` call was the first to raise in this run -/
+  | tearing (i : Nat) (pend : Option Nat)
 deriving DecidableEq, Repr, Inhabited
 
 /-- why a label is not enabled (the acceptor reports it; theorems never rely on an error being "absorbed") -/
@@ -70,6 +82,8 @@ inductive Err
   | notFresh
   /-- `tdObj` while the iterator is exhausted / `tdEnd` while it is not -/
   | iter
+  /-- `tdEnd` with an outcome (return / re-raise of a given exception) that is not what the code does here -/
+  | outcome
 deriving DecidableEq, Repr, Inhabited
 
 structure St where
@@ -88,16 +102,22 @@ structure St where
   returned : List (Nat × Nat)
   /-- ghost: number of `teardown_object(o)` calls (a raising call counts) -/
   tdCount : Nat → Nat
-  /-- ghost: `teardown_factory` calls started / returned normally / ended by a raising `teardown_object` -/
+  /-- ghost: `teardown_factory` calls started / returned normally / ended by re-raising the first exception
+      (a call that ends either way has gone through the WHOLE of `_objects`) -/
   tdBegins : Nat
   tdEnds : Nat
   tdRaises : Nat
+  /-- ghost: number of `teardown_object` calls that raised -/
+  tdObjRaises : Nat
+  /-- ghost: how every completed `teardown_factory` call ended, in order: `none` = returned,
+      `some o` = re-raised the exception of `teardown_object(o)` -/
+  tdOutcomes : List (Option Nat)
 
 /-- `ThreadedFactory.__init__` -/
 def init : St :=
   { slot := fun _ => none, objects := [], pc := fun _ => .idle, next := 0,
     creator := fun _ => none, creations := fun _ => 0, returned := [],
-    tdCount := fun _ => 0, tdBegins := 0, tdEnds := 0, tdRaises := 0 }
+    tdCount := fun _ => 0, tdBegins := 0, tdEnds := 0, tdRaises := 0, tdObjRaises := 0, tdOutcomes := [] }
 
 /-- One atomic step; the first argument of every label is the executing thread. -/
 inductive Label
@@ -117,10 +137,12 @@ inductive Label
   | getRet (t o : Nat)
   /-- `teardown_factory` is entered: `iter(self._objects)` -/
   | tdBegin (t : Nat)
-  /-- the iterator yields `o`; `self.teardown_object(o)` returns (`ok`) or raises (`ok = false`) -/
+  /-- the iterator yields `o`; `self.teardown_object(o)` returns (`ok`) or raises (`ok = false`: caught,
+      remembered if it is the first one, the loop continues) -/
   | tdObj (t o : Nat) (ok : Bool)
-  /-- the iterator is exhausted: `teardown_factory` returns -/
-  | tdEnd (t : Nat)
+  /-- the iterator is exhausted: `teardown_factory` returns (`none`) or re-raises the first exception, the one
+      raised by `teardown_object(o)` (`some o`) -/
+  | tdEnd (t : Nat) (raised : Option Nat)
 deriving DecidableEq, Repr, Inhabited
 
 def step (s : St) : Label → Except Err St
@@ -178,26 +200,33 @@ def step (s : St) : Label → Except Err St
     | _ => .error .pc
   | .tdBegin t =>
     match s.pc t with
-    | .idle => .ok { s with pc := fun x => if x = t then .tearing 0 else s.pc x, tdBegins := s.tdBegins + 1 }
+    | .idle => .ok { s with pc := fun x => if x = t then .tearing 0 none else s.pc x, tdBegins := s.tdBegins + 1 }
     | _ => .error .pc
   | .tdObj t o ok =>
     match s.pc t with
-    | .tearing i =>
+    | .tearing i pend =>
       match s.objects[i]? with
       | none => .error .iter
       | some o' =>
         if o' = o then
           .ok { s with
-            pc := fun x => if x = t then (if ok then .tearing (i + 1) else .idle) else s.pc x
+            pc := fun x => if x = t then .tearing (i + 1) (if ok then pend else pend.or (some o)) else s.pc x
             tdCount := fun x => if x = o then s.tdCount x + 1 else s.tdCount x
-            tdRaises := if ok then s.tdRaises else s.tdRaises + 1 }
+            tdObjRaises := if ok then s.tdObjRaises else s.tdObjRaises + 1 }
         else .error .wrongObject
     | _ => .error .pc
-  | .tdEnd t =>
+  | .tdEnd t raised =>
     match s.pc t with
-    | .tearing i =>
+    | .tearing i pend =>
       match s.objects[i]? with
-      | none => .ok { s with pc := fun x => if x = t then .idle else s.pc x, tdEnds := s.tdEnds + 1 }
+      | none =>
+        if raised = pend then
+          .ok { s with
+            pc := fun x => if x = t then .idle else s.pc x
+            tdEnds := if raised.isSome then s.tdEnds else s.tdEnds + 1
+            tdRaises := if raised.isSome then s.tdRaises + 1 else s.tdRaises
+            tdOutcomes := s.tdOutcomes ++ [raised] }
+        else .error .outcome
       | some _ => .error .iter
     | _ => .error .pc
 
@@ -212,7 +241,7 @@ def run : St → List Label → Except Err St
 /-- the thread executing the step -/
 def Label.thread : Label → Nat
   | .getHit t _ | .getMiss t | .setupOk t _ | .setupRaise t | .writeSlot t | .append t | .getRet t _
-  | .tdBegin t | .tdObj t _ _ | .tdEnd t => t
+  | .tdBegin t | .tdObj t _ _ | .tdEnd t _ => t
 
 /-- the label belongs to a `teardown_factory` call -/
 def Label.isTd : Label → Bool
@@ -224,8 +253,52 @@ def Label.isTdRaise : Label → Bool
   | .tdObj _ _ false => true
   | _ => false
 
+/-- the object whose `teardown_object` call raises in this step, if it is such a step -/
+def Label.raiseOf : Label → Option Nat
+  | .tdObj _ o false => some o
+  | _ => none
+
+/-- `first_exception` after the steps `ls`, starting from `fr`: the first raising `teardown_object` call wins -/
+def firstRaiseFrom (fr : Option Nat) (ls : List Label) : Option Nat :=
+  ls.foldl (fun a l => a.or l.raiseOf) fr
+
+/-- the object of the first raising `teardown_object` call in `ls` -/
+def firstRaise (ls : List Label) : Option Nat := firstRaiseFrom none ls
+
 /-- no thread is inside `get_object` or `teardown_factory` -/
 def Quiescent (s : St) : Prop := ∀ t, s.pc t = .idle
+
+/-! ### The loop as it was before /repo commit 8e1157b (documentation only)
+
+    `for obj in self._objects: self.teardown_object(obj)` — a raising `teardown_object` ended the loop and the
+    exception propagated at once.  Every other step is the same. -/
+
+/-- LEGACY (before 8e1157b): like `step`, but a raising `teardown_object` call ends `teardown_factory` -/
+def stepLegacy (s : St) : Label → Except Err St
+  | .tdObj t o false =>
+    match s.pc t with
+    | .tearing i _ =>
+      match s.objects[i]? with
+      | none => .error .iter
+      | some o' =>
+        if o' = o then
+          .ok { s with
+            pc := fun x => if x = t then .idle else s.pc x
+            tdCount := fun x => if x = o then s.tdCount x + 1 else s.tdCount x
+            tdObjRaises := s.tdObjRaises + 1
+            tdRaises := s.tdRaises + 1
+            tdOutcomes := s.tdOutcomes ++ [some o] }
+        else .error .wrongObject
+    | _ => .error .pc
+  | l => step s l
+
+/-- LEGACY (before 8e1157b): fold `stepLegacy` -/
+def runLegacy : St → List Label → Except Err St
+  | s, [] => .ok s
+  | s, l :: ls =>
+    match stepLegacy s l with
+    | .error e => .error e
+    | .ok s' => runLegacy s' ls
 
 end Factory
 
